@@ -7,6 +7,7 @@ import (
 	"go/token"
 	"go/types"
 	"math/big"
+	"regexp"
 	"sort"
 	"strings"
 
@@ -91,6 +92,8 @@ type Path struct {
 	fs        map[string]*memFile
 	markers   map[int]*Term
 	keyCounter int
+	regexps   map[*value]*regexp.Regexp
+	profile   map[*ssa.Function]int
 	coverPending []string
 	rands     map[*value]*randState
 	randMemo  map[string][]int
